@@ -179,6 +179,14 @@ func refSubKeys(v interface{}, conds []cond, negAbsent bool) bool {
 						f, ok = nf, true
 					}
 				}
+				switch i := x.(type) { // ... and under CastValuesToInt
+				case int64:
+					f, ok = float64(i), true
+				case uint64:
+					f, ok = float64(i), true
+				case int:
+					f, ok = float64(i), true
+				}
 				holds = ok && f == cv
 			}
 		}
@@ -735,11 +743,13 @@ func c08Run(c *Ctx) {
 				c.S.States++
 				c.S.Evaluations++
 				c.S.Schedules++
-				c08NumSpelling(c, numMap, neg+"a:"+sp+":"+typ, sp, neg == "!", false)
+				c08NumSpelling(c, numMap, neg+"a:"+sp+":"+typ, sp, neg == "!", "")
 				if typ == "num" {
-					// the same Map as the library's own decoder returns it under JsonUseNumber (json.Number leaves)
-					c08NumSpelling(c, numMap, neg+"a:"+sp+":"+typ, sp, neg == "!", true)
-					c.S.Schedules++
+					// the same Map as the library's own decoders return it under JsonUseNumber (json.Number leaves)
+					// and under CastValuesToInt (int64 leaves)
+					c08NumSpelling(c, numMap, neg+"a:"+sp+":"+typ, sp, neg == "!", "json-number")
+					c08NumSpelling(c, numMap, neg+"a:"+sp+":"+typ, sp, neg == "!", "int64")
+					c.S.Schedules += 2
 				}
 			}
 		}
@@ -765,13 +775,23 @@ func c08Run(c *Ctx) {
 }
 
 // c08NumSpelling: one number-typed condition on the key "a" of the members of list k.
-func c08NumSpelling(c *Ctx, js, spec, spelling string, negated, useNum bool) {
+func c08NumSpelling(c *Ctx, js, spec, spelling string, negated bool, variant string) {
 	m := fromJSON(js).(map[string]interface{})
-	if useNum {
+	switch variant {
+	case "json-number":
 		d := json.NewDecoder(strings.NewReader(js))
 		d.UseNumber()
 		m = map[string]interface{}{}
 		d.Decode(&m)
+	case "int64":
+		for _, e := range m["k"].([]interface{}) {
+			em := e.(map[string]interface{})
+			for k, v := range em {
+				if f, ok := v.(float64); ok && f == float64(int64(f)) {
+					em[k] = int64(f)
+				}
+			}
+		}
 	}
 	cas := func() interface{} {
 		return c08Case{Map: json.RawMessage(jsonOf(untype(m))), Key: "k", SubKeys: []string{spec}, Pol: rt.OrderPolicy}
@@ -805,6 +825,9 @@ func c08NumSpelling(c *Ctx, js, spec, spelling string, negated, useNum bool) {
 		if n, isN := v.(json.Number); isN {
 			f, _ = n.Float64()
 			isNum = true
+		}
+		if i, isI := v.(int64); isI {
+			f, isNum = float64(i), true
 		}
 		holds := present && isNum && f == want
 		if negated {
